@@ -28,6 +28,9 @@ def utf8_samples():
         # valid text that contains the replacement character itself, and the first / last code point of every encoded length
         'a\ufffdb,"\ufffd"\r\n\ufffd',
         '\x7f\x80,\u07ff\u0800\n\uffff\U00010000,\U0010ffff',
+        # canonically decomposed text (base character + combining mark, conjoining jamo): the reader hands the code points on as they are, wherever the cut falls
+        'Jose\u0301,o\u0308\r\nA\u030a,"\u1112\u1161\u11ab"\n',
+        'e\u0301\u0301\ne\u0301',
     ]
 
 
